@@ -266,6 +266,7 @@ def run(rep, tier):
     rep.rule('R12.1', 'one matcher: the interpreter, the validator and the debugger decide descriptor matches by calling uscxml::nameMatch; no second matcher is defined in src/')
     rep.rule('R12.2', 'scanner loops (tokenize, spaceNormalize, nameMatch and the copies shipped for generated C) take every non-empty token: guard normal form start < i, and a skip/start/last-token combination from the confirmed-correct table')
     rep.rule('R12.7', 'closed set of reasons to accept: every `return true` of the matcher (and of its shipped copy) is reached only with the descriptor empty after stripping (wildcard), with descriptor and name equal, or with the descriptor a prefix of the name AND the name having "." exactly at position descriptor.size()')
+    rep.rule('R12.8', 'token matching is case sensitive: no accepting return of the matcher (or of its shipped copy) is reached through a case-insensitive comparison (iequals, strcasecmp, ...)')
     rep.rule('R12.3', 'copy agreement: StateMachine::nameMatch (test-gen-c.cpp scaffolding) has the same decision features as uscxml::nameMatch')
     rep.rule('R12.6', 'static resolution finds every event name below a prefix: Trie::getChildsWithWords adds the node\'s own word and descends into EVERY child, whether or not that child is itself a word (a.b and a.b.c are both names)')
     rep.rule('R12.5', 'static resolution registers every event name: Trie::addWord marks the final node as a word under no other condition than that it is not one yet')
@@ -403,12 +404,14 @@ def run(rep, tier):
                 return 'BOUNDARY'
         if 'empty' in names and c['k'] in ('CXXMemberCallExpr',):
             return 'EMPTY'
-        if any(nm in ('iequals', 'equals') for nm in names) or (c['k'] == 'CXXOperatorCallExpr' and c.get('op') == '==' and not lits):
+        if any(nm in ('iequals', 'strcasecmp', 'strncasecmp', 'ilexicographical_compare', 'istarts_with') for nm in names):
+            return 'EQUAL-IGNORING-CASE'
+        if any(nm in ('equals',) for nm in names) or (c['k'] == 'CXXOperatorCallExpr' and c.get('op') == '==' and not lits):
             return 'EQUAL'
-        if any(nm in ('starts_with', 'istarts_with') for nm in names):
+        if any(nm in ('starts_with',) for nm in names):
             return 'PREFIX'
         return None
-    n_acc = 0
+    n_acc = n_cs = 0
     for fn_ in (a, b):
         g_ = cfgm.CFG(fn_)
         for n in fn_.walk():
@@ -426,10 +429,18 @@ def run(rep, tier):
                         kinds.add(k_)
             n_acc += 1
             ok = 'EMPTY' in kinds or 'EQUAL' in kinds or {'PREFIX', 'BOUNDARY'} <= kinds
+            if 'EQUAL-IGNORING-CASE' in kinds:
+                rep.fail('R12.8', '%s|accept#%d' % (fn_.q, sum(1 for x in fn_.walk() if x['k'] == 'ReturnStmt' and x['loc'][1] < n['loc'][1])), locstr(n),
+                         'a descriptor is accepted here because it equals the name IGNORING CASE: 3.12.1 says "in all cases, the token matching is case sensitive", the prefix test and the statically resolved matches of the transpilers are case sensitive')
+                ok = True       # reported under R12.8
+            else:
+                n_cs += 1
             rep.check(ok, 'R12.7', '%s|accept#%d' % (fn_.q, sum(1 for x in fn_.walk() if x['k'] == 'ReturnStmt' and x['loc'][1] < n['loc'][1])), locstr(n),
                       'a descriptor is accepted here under %s%s' % (sorted(kinds) or 'no recognised reason', '' if ok else
                       ': the only reasons to accept are the wildcard (descriptor empty after stripping), equality with the whole name, or a prefix of the name that ends exactly where the name has a "." (boundary test at position descriptor.size())'))
     rep.minimum('R12.7', n_acc, 6, 'accepting returns in the two matcher copies')
+    if n_cs == n_acc:
+        rep.ok('R12.8', 'matcher copies', 'no accepting return is reached through a case-insensitive comparison (%d returns)' % n_acc)
 
     # ---- R12.4
     sites = 0
